@@ -728,34 +728,45 @@ eval_locals = {
     'tan': np.tan,
     'ln': np.log,
     'exp': np.exp,
+    'sqrt': np.sqrt,
 }
 
 
-def eval_exp_recurse(tree: lark.Tree) -> Any:
+def eval_exp(tree: lark.Tree | lark.Token) -> Any:
+    """Evaluate the parameter expression `tree` to a number."""
     if isinstance(tree, lark.Token):
-        return str(tree)
-    code = ''
-    for op in tree.children:
-        if isinstance(op, lark.Token):
-            code += str(op)
-            continue
-        if op.data == 'unaryexp':
-            unaryop = op.children[0]
-            code += f'{unaryop.children[0]}({eval_exp_recurse(op.children[1])})'
-            continue
-        elif op.data == 'usub':
-            code += '-'
-        elif op.data == 'pow':
-            base = eval_exp_recurse(op.children[0])
-            exp = eval_exp_recurse(op.children[1])
-            code += f'{base}**{exp}'
-            continue
-        code += ' '.join(map(eval_exp_recurse, op.children))
-    return code
+        if tree.type == 'PI':
+            return np.pi
+        if tree.type == 'ID':
+            raise LangException(f'Undefined identifier in expression: {tree}.')
+        return float(tree)
 
+    children = tree.children
 
-def eval_exp(tree: lark.Tree) -> Any:
-    return eval(eval_exp_recurse(tree), {}, eval_locals)
+    if tree.data == 'usub':
+        return -eval_exp(children[0])
+
+    if tree.data == 'pow':
+        return eval_exp(children[0]) ** eval_exp(children[1])
+
+    if tree.data == 'unaryexp':
+        fn = eval_locals[str(children[0].children[0])]
+        return fn(eval_exp(children[1]))
+
+    # exp and mulexp are `operand (operator operand)*`; all other nodes
+    # (parenexp, primaryexp) wrap a single child.
+    val = eval_exp(children[0])
+    for op, operand in zip(children[1::2], children[2::2]):
+        rhs = eval_exp(operand)
+        if op == '+':
+            val = val + rhs
+        elif op == '-':
+            val = val - rhs
+        elif op == '*':
+            val = val * rhs
+        else:
+            val = val / rhs
+    return val
 
 
 def eval_explist(tree: lark.Tree) -> Any:
